@@ -15,6 +15,8 @@ RACK = [("", OK), ("x", OK), ("Water µ", OK), (T32, OK), (T33, REJ), ("a;b", RE
 TEXT = [("", OK), ("x", OK), ("Water µ", OK), (T32, OK), (T33, FREE), ("a;b", REJ), (";", REJ)]
 VOL50 = [(0, OK), (0.005, OK), (12.345, OK), (50, OK), (math.nextafter(50, INF), REJ), (-1, REJ), (NAN, REJ), (INF, REJ), ("12", FREE), (7158279, REJ), (2.675, OK)]
 POS = [(1, OK), (7, OK), (96, OK), (0, FREE), (-1, REJ), (1.5, REJ), ("3", REJ), ({"$none": 1}, REJ)]
+# (a numpy integer as the position of a single aspirate/dispense record is refused by the unchanged tree: a spurious
+# refusal, which the statement does not forbid)
 TIP = [({"$tip": "Any"}, OK), (3, OK), ({"$tip": "T8"}, OK), ([1, 2], OK), ([{"$tip": "T2"}, 2], OK), ({"$iter": [1, {"$tip": "T3"}]}, OK), ({"$tuple": [8, 1]}, OK), (0, REJ), (9, REJ), ([1, {"$tip": "Any"}], REJ), ({"$iter": [1, 0]}, REJ)]
 # the status of an exclusion list depends on the destination range and is decided in one_r
 EXCL = [({"$none": 1}, OK), ([], OK), ([3], OK), ([1, 12], OK), ([5, 3], OK), ([3, 3], FREE), ([0], OK), ([13], OK), ([3, 20], OK)]
@@ -35,11 +37,11 @@ AD_DEFAULT = {"rack_label": "Plate", "position": 5, "volume": 10.0, "liquid_clas
 
 R_FIELDS = {
     "src_rack_label": RACK[1:],
-    "src_start": POS,
-    "src_end": POS,
+    "src_start": POS + [({"$npi": 7}, OK)],  # numpy integers (a column index from numpy.argmax / arange) are integers
+    "src_end": POS + [({"$npi": 96}, OK)],
     "dst_rack_label": RACK[1:],
-    "dst_start": [(1, OK), (2, OK), (0, FREE), (-1, REJ), (1.5, REJ), ("1", REJ)],
-    "dst_end": [(12, OK), (96, OK), (-1, REJ), (12.5, REJ), ({"$none": 1}, REJ)],
+    "dst_start": [(1, OK), (2, OK), ({"$npi": 2}, OK), (0, FREE), (-1, REJ), (1.5, REJ), ("1", REJ)],
+    "dst_end": [(12, OK), (96, OK), ({"$npi": 12}, OK), (-1, REJ), (12.5, REJ), ({"$none": 1}, REJ)],
     "volume": [(0.25, OK), (12.345, OK), (50, OK), (25, OK), (math.nextafter(50, INF), REJ), (-1, REJ), (NAN, REJ), (INF, REJ), (1e-05, FREE)],
     "diti_reuse": [(1, OK), (3, OK)],
     "multi_disp": [(1, OK), (2, OK), (12, OK)],
@@ -225,6 +227,8 @@ class Harness(cm.BaseB):
             v, st = R_FIELDS[f][vi]
             args[f] = v
             status = REJ if REJ in (status, st) else FREE if FREE in (status, st) else OK
+        raw = args
+        args = {k: (v["$npi"] if isinstance(v, dict) and "$npi" in v else v) for k, v in raw.items()}  # what the oracle reads
         # interactions between fields: exclusions must lie inside the (possibly changed) destination range
         ds, de, ex = args["dst_start"], args["dst_end"], args["exclude_wells"]
         if status != REJ and isinstance(ex, list) and ex and isinstance(ds, int) and isinstance(de, int):
@@ -234,7 +238,7 @@ class Harness(cm.BaseB):
             status = FREE
         wl = rt.BaseWorklist(max_volume=50)
         wl.append("C;before")
-        call = {k: val(v) for k, v in args.items()}
+        call = {k: val(v) for k, v in raw.items()}
         pos = [call.pop(k) for k in ("src_rack_label", "src_start", "src_end", "dst_rack_label", "dst_start", "dst_end")]
         try:
             wl.reagent_distribution(*pos, **call)
